@@ -71,6 +71,16 @@ fn case_list(ctx: &Ctx) -> Vec<Case> {
         let mut r = ctx.rng("listP", j);
         v.push(Case { size: 66_000 + r.below(if j % 3 == 0 { 200_000 } else { 30_000 }), class: 18, level: if j % 5 == 0 { (j % 11) as u8 } else { 4 + (j % 7) as u8 }, zlib: r.bool(), boundary: false });
     }
+    // C5: level 1 (compress_fast) on inputs that fill its LZ code buffer at least once with a mix
+    // of literals and sparse matches, so that the buffer-full / flag-byte edge is approached with
+    // every residue of (code bytes used, codes in the current flag group)
+    let nf = ctx.n(100, 3000);
+    for j in 0..nf {
+        let mut r = ctx.rng("listF", j);
+        // match-dense classes: about every second code is a match, so that the code that meets the
+        // edge is a 3-byte one as often as a 1-byte one
+        v.push(Case { size: 150_000 + r.below(450_000), class: *r.pick(&[11usize, 11, 5, 15, 12, 7, 17]), level: 1, zlib: r.bool(), boundary: false });
+    }
     // D: random mid sizes, all classes
     let n = ctx.n(8000, 200_000);
     for j in 0..n {
